@@ -475,20 +475,20 @@ class System:
             for key in self._g.attrs["nodes"]:
                 if self._g[self._g.attrs["nodes"][key]]._component_type.name == "PMUX":
                     raise ValueError("a system can only have one PMux")
+        # rail names are not applicable on loads (warn before anything is changed)
+        if comp._component_type == _ComponentTypes.LOAD and rail != "":
+            warn(
+                "rail parameter ignored, not applicable on loads",
+                stacklevel=2,
+            )
+            rail = ""
         # all ok, add component
         cidx = self._g.add_child(pidx[0], comp, None)
         self._g.attrs["nodes"][comp._params["name"]] = cidx
         self._g.attrs["phase_conf"][comp._params["name"]] = {}
         self._g.attrs["groups"][comp._params["name"]] = group
         self._g.attrs["pnames"][cidx] = [self._g[i]._params["name"] for i in pidx]
-        if comp._component_type == _ComponentTypes.LOAD and rail != "":
-            warn(
-                "rail parameter ignored, not applicable on loads",
-                stacklevel=2,
-            )
-            self._g.attrs["rails"][comp._params["name"]] = ""
-        else:
-            self._g.attrs["rails"][comp._params["name"]] = rail
+        self._g.attrs["rails"][comp._params["name"]] = rail
         if len(pidx) > 1:
             for p in range(1, len(pidx), 1):
                 self._g.add_edge(pidx[p], cidx, None)
@@ -610,6 +610,13 @@ class System:
                         comp._component_type.name, self._g[c]._component_type.name
                     )
                 )
+        # rail names are not applicable on loads (warn before anything is changed)
+        if comp._component_type == _ComponentTypes.LOAD and rail != "":
+            warn(
+                "rail parameter ignored, not applicable on loads",
+                stacklevel=2,
+            )
+            rail = ""
         self._g[eidx] = comp
         # replace node name in graph dict
         del [self._g.attrs["nodes"][name]]
@@ -628,14 +635,7 @@ class System:
         self._g.attrs["groups"][comp._params["name"]] = group
         # delete old rail and set new
         del [self._g.attrs["rails"][name]]
-        if comp._component_type == _ComponentTypes.LOAD and rail != "":
-            warn(
-                "rail parameter ignored, not applicable on loads",
-                stacklevel=2,
-            )
-            self._g.attrs["rails"][comp._params["name"]] = ""
-        else:
-            self._g.attrs["rails"][comp._params["name"]] = rail
+        self._g.attrs["rails"][comp._params["name"]] = rail
 
     def del_comp(self, name: str, *, del_childs: bool = True):
         """Delete component.
